@@ -65,7 +65,7 @@ def split_steps(w):
             continue
         if e[0] in ("lw", "lp") and in_clock and isinstance(e[1], ExpirationLog):
             continue  # expiry records are written inside the clock advance
-        if e[0] == "idx_clock" and in_clock:
+        if e[0] in ("idx_clock", "idx_now") and in_clock:
             segs[-1].append(e)  # an observer's snapshot between the clock advances of two markets of one step
             continue
         in_clock = False
